@@ -1,4 +1,4 @@
-"""C36 — idle runs are released after the idle timeout and reloaded on demand (in-process stack)."""
+"""C36 — idle runs are released after the idle timeout and reloaded on demand (in-process stack, and the DBOS stack on the emulated dbos)."""
 from __future__ import annotations
 
 import asyncio
@@ -18,12 +18,13 @@ RULE_TEXT = ("In-process server stack (SQLite or memory store). Human-in-the-loo
              "after the release, then finishes the run. Oracle at stable instants and quiescence: a truly idle run is gone from "
              "the live-runner registry after idle_timeout (+0) of inactivity, its handler row carries idle_since, it is not released "
              "earlier than idle_timeout after the last activity, and the next event reloads it and the run ends with the reference "
-             "result. DBOS half: see C36 note in DESIGN (DBOS is not importable here). Non-trivial: >=1 release happened and >=1 "
+             "result. DBOS half (a fifth of the runs): the same obligations on DBOSIdleReleaseDecorator + lifecycle lock + DBOSRuntime under the server "
+             "stack, on the EMULATED dbos package, in two arms: as wired, and with the lifecycle row created by the harness. Non-trivial: >=1 release happened and >=1 "
              "event was sent to a released run; distinct = abstract trace shape.")
-COMPONENTS = {"real": ["IdleReleaseDecorator (release, reload lock, reload-on-demand), PersistenceDecorator.context_from_ticks, server stack, stores, engine"],
-              "stub": ["llama_index_instrumentation"], "sim": ["loop, clocks, runner registry, responder"]}
-ASSUMPTIONS = ["activity = a processed tick other than an idle check, or an external send", "the DBOS stack is not exercised (dbos not importable); claim limited to the in-process stack"]
-EXPECTED_PROBES = ["released", "event-to-released-run", "event-before-release", "release-and-send-same-instant", "reloaded"]
+COMPONENTS = {"real": ["DBOSIdleReleaseDecorator, SqliteRunLifecycleLock, DBOSRuntime adapters, TickPersistenceDecorator, EventInterceptorDecorator (DBOS half)", "IdleReleaseDecorator (release, reload lock, reload-on-demand), PersistenceDecorator.context_from_ticks, server stack, stores, engine"],
+              "stub": ["llama_index_instrumentation", "dbos: EMULATED (DBOS half only)", "sqlalchemy, asyncpg (name only)"], "sim": ["loop, clocks, runner registry, responder"]}
+ASSUMPTIONS = ["activity = a processed tick other than an idle check, or an external send", "DBOS half: dbos itself is emulated (stubs/dbos, DESIGN 9.6); everything of the repository above it is real"]
+EXPECTED_PROBES = ["dbos-as-wired", "dbos-row-created-by-harness", "store-latency-arm", "released", "event-to-released-run", "event-before-release", "release-and-send-same-instant", "reloaded"]
 LEVEL_TEXT = "Seeded exploration of response instants around the release instant; liveness rules judged at stable instants / quiescence only."
 LEVEL_NOTE = "Trusted: simulator loop/clocks, runner registry."
 
@@ -242,5 +243,147 @@ def check(world, spec, outcome) -> None:
     world._nt = n_rel >= 1 and bool(world.probes.get("event-to-released-run"))
 
 
+# ---------------------------------------------------------------------------------------------------------------------------
+# DBOS half: the same obligations on DBOSIdleReleaseDecorator(EventInterceptorDecorator(TickPersistenceDecorator(DBOSRuntime)))
+# under ServerRuntimeDecorator + _WorkflowService, on the EMULATED dbos package (DESIGN 9.6). Two arms: "as-wired" (exactly what the
+# repository assembles) and "row-created" (the harness calls RunLifecycleLock.create(run_id) right after the start, standing in for
+# the caller that the repository does not have, so that the release/resume protocol behind it is exercised at all).
+
+CFG_DBOS = {"driver": "finish", "quiesce_gap": 500.0, "grid": [0, 1, 1, 2], "p_wait": 100, "allow_send_event": False, "retry_delays": [0], "max_steps": 400_000}
+
+
+def _dbos_rows(world):
+    import sqlite3
+    conn = sqlite3.connect(world.tmp.db())
+    try:
+        lc = conn.execute("SELECT state FROM run_lifecycle").fetchall()
+        h = conn.execute("SELECT status, idle_since, result FROM handlers WHERE handler_id='h1'").fetchone()
+    except sqlite3.Error:
+        return None, None
+    finally:
+        conn.close()
+    return (lc[0][0] if lc else None), h
+
+
+async def scenario_dbos(world, spec):
+    it = float(world.tape.choice([2, 4, 8], "idle_timeout"))
+    world.cfg["idle_timeout"] = it
+    with_row = world.tape.draw(3, "dbos.row?") != 0
+    world.probe("dbos-row-created-by-harness" if with_row else "dbos-as-wired")
+    inc = world.new_incarnation(server_chain=True)
+    wf = inc.add_workflow("wf", spec)
+    await inc.start()
+    hd = await inc.call(inc.service.start_workflow(wf, "h1", start_event=EV.Start0(uid=world.uid())))
+    rid = hd.run_id
+    if with_row:
+        lc = await inc.call(inc.chain._get_lifecycle())
+        await inc.call(lc.create(rid))
+    obs = []
+    answered = set()
+    for _ in range(6):
+        await world.loop.quiesce()
+        pend = [c for c in world.wait_calls if c["key"] not in answered]
+        # the run is idle now (waiting for answers, or finished its work); when did it say so?
+        t_idle = max([t for _, t, k, f in world.trace.recs if k == "publish" and f["ev"] == "WorkflowIdleEvent"], default=None)
+        if t_idle is None:
+            break
+        d = world.tape.choice([0, 1, it / 2, it + 1, it + 3], "dbos.resp.delay") if pend else it + 2
+        if d > it:
+            # past the idle timeout: observe before touching the run again
+            await asyncio.sleep(max(0.0, t_idle + it + 1 - world.clock.t))
+            state, h = _dbos_rows(world)
+            live = len(world.live_runners.get(rid) or [])
+            obs.append({"t_idle": t_idle, "t": world.clock.t, "live": live, "lifecycle": state, "idle_since": bool(h and h[1])})
+            world.trace.log("dbos-observe", **obs[-1])
+            await asyncio.sleep(max(0.0, t_idle + d - world.clock.t))
+        elif d:
+            await asyncio.sleep(d)
+        if not pend:
+            break
+        for c in pend:
+            answered.add(c["key"])
+            released = not (world.live_runners.get(rid) or [])
+            world.probe("event-to-released-run" if released else "event-before-release")
+            ev = world.mk("Resp0", -1, "ext", key=c["key"])
+            world.trace.log("send", uid=ev.uid, ev="Resp0", key=c["key"], label="response")
+            try:
+                await inc.call(inc.service.send_event("h1", ev))
+                world.trace.log("send-returned", uid=ev.uid)
+            except BaseException as e:  # noqa: BLE001
+                world.trace.log("send-rejected", uid=ev.uid, exc=type(e).__name__, msg=str(e)[:100])
+    await world.loop.quiesce()
+    world.trace.log("quiescent", phase="pre-fin")
+    fin = EV.Fin(uid=world.uid())
+    world.trace.log("send", uid=fin.uid, ev="Fin", key=None, label="fin")
+    try:
+        await inc.call(inc.service.send_event("h1", fin))
+    except BaseException as e:  # noqa: BLE001
+        world.trace.log("send-rejected", uid=fin.uid, exc=type(e).__name__, msg=str(e)[:100])
+    await world.loop.quiesce()
+    world.trace.log("quiescent", phase="end")
+    state, h = _dbos_rows(world)
+    return {"obs": obs, "with_row": with_row, "final": h, "lifecycle": state, "it": it}
+
+
+def check_dbos(world, spec, outcome) -> None:
+    import json
+    if not outcome:
+        world._nt = False
+        return
+    row = "created-by-harness" if outcome["with_row"] else "never-created"
+    released_once = False
+    for o in outcome["obs"]:
+        if o["live"]:
+            world.violate("C36.not-released", f"DBOS stack: run idle since t={o['t_idle']}, idle_timeout={outcome['it']}, still has a live control loop at t={o['t']} "
+                          f"(lifecycle row: {o['lifecycle']})", backend="dbos", lifecycle_row=row)
+        else:
+            released_once = True
+            world.probe("released")
+            if not o["idle_since"]:
+                world.violate("C36.not-marked-idle", f"DBOS stack: run released (lifecycle {o['lifecycle']}) but the handler row has no idle_since", backend="dbos", lifecycle_row=row)
+    if released_once and world.probes.get("event-to-released-run"):
+        world.probe("reloaded")
+    # root-cause attributes of a failed reload on this stack: the exception the resume raised (the service swallows it), and whether
+    # the run had already been resumed once before (its persisted tick log then lacks the event that resumed it: DBOSIdleRelease
+    # folds the pending tick into the rebuilt state without persisting it)
+    errs = [f for _, _, k, f in world.trace.recs if k == "reload-error"]
+    first_err = min([q for q, _, k, f in world.trace.recs if k == "reload-error"], default=None)
+    earlier = sum(1 for q, _, k, f in world.trace.recs if k == "dbos-resumed" and (first_err is None or q < first_err))
+    rerr = {"resume_error": (errs[0]["exc"] + ": " + errs[0]["msg"]) if errs else None, "earlier_resumes": "none" if not earlier else "one-or-more"}
+    sent = {f["uid"]: f for _, _, k, f in world.trace.recs if k == "send"}
+    # processed = its tick was reduced by a control loop, or (an event folded into the rebuilt state of a resumed run never shows
+    # up as a tick of its own) it was handed to a wait / entered a step
+    processed = {f["uid"] for _, _, k, f in world.trace.recs if k == "tick" and f["tick"] == "add_event"}
+    processed |= {f["got"] for _, _, k, f in world.trace.recs if k == "wait-result"}
+    processed |= {f["uid"] for _, _, k, f in world.trace.recs if k == "enter" and not isinstance(f["uid"], list)}
+    rejected = {f["uid"]: f for _, _, k, f in world.trace.recs if k == "send-rejected"}
+    for u, f in sent.items():
+        if u not in processed:
+            world.violate("C36.reload-failed", f"DBOS stack: event uid={u} ({f['ev']}) sent to the run was never processed (send: {rejected.get(u, {}).get('exc', 'returned')} "
+                          f"{rejected.get(u, {}).get('msg', '')})", how="event-not-processed", backend="dbos", lifecycle_row=row, released_before=released_once, **rerr)
+    h = outcome["final"]
+    want = expected_keys(spec, world)
+    got = None
+    try:
+        got = sorted(json.loads(h[2])["value"]["result"]) if h and h[2] else None
+        if got is None and h and h[2]:
+            got = sorted(json.loads(h[2]).get("result") or [])
+    except Exception:  # noqa: BLE001
+        pass
+    if h is None or h[0] != "completed":
+        world.violate("C36.reload-failed", f"DBOS stack: run did not complete: handler {h and h[:2]}", how="not-completed", backend="dbos", lifecycle_row=row, released_before=released_once, **rerr)
+    elif got != want:
+        world.violate("C36.reload-failed", f"DBOS stack: run continued to a different result: {got}, expected {want}", how="different-result", backend="dbos", lifecycle_row=row,
+                      released_before=released_once, lost_store_keys=bool(got is not None and set(got) < set(want)), **rerr)
+    world._nt = bool(outcome["obs"])
+
+
+def _run_dbos(tape):
+    from worlds.dbos import DbosWorld
+    return engine_common.simulate(tape, CFG_DBOS, check_dbos, gen=gen, scenario=scenario_dbos, nontrivial=lambda w, s, o: w._nt, world_cls=DbosWorld)
+
+
 def run(tape):
+    if tape.draw(5, "c36.stack") == 0:
+        return _run_dbos(tape)
     return engine_common.simulate(tape, CFG, check, gen=gen, scenario=scenario, nontrivial=lambda w, s, o: w._nt, world_cls=ServerWorld)
